@@ -3,7 +3,7 @@
    width in bits.  Plain `+ - * / % << >>` are the overflow-CHECKED operations of
    a build with overflow checks (they are what C14 speaks about); the wrapping_*
    and saturating_* methods, `!`, `as` are total. *)
-From Memchr Require Import Base.Res Base.Bits.
+From Memchr Require Import Base.Res Base.ListX Base.Bits.
 Local Open Scope N_scope.
 
 Definition tmax (w : N) : N := 2 ^ w - 1.
@@ -61,3 +61,19 @@ Qed.
 (* checked_add / checked_sub returning Option *)
 Definition chk_add_opt (w a b : N) : option N := if a + b <=? tmax w then Some (a + b) else None.
 Definition chk_sub_opt (a b : N) : option N := if b <=? a then Some (a - b) else None.
+
+(* slices: split_at / [..n] / [n..] / [i] panic outside the slice *)
+Definition split_at_chk (l : list N) (n : N) : res (list N * list N) :=
+  if n <=? N.of_nat (length l) then Ok (firstn (N.to_nat n) l, skipn (N.to_nat n) l) else Panic IndexOOB.
+Definition slice_to_chk (l : list N) (n : N) : res (list N) :=
+  if n <=? N.of_nat (length l) then Ok (firstn (N.to_nat n) l) else Panic IndexOOB.
+Definition slice_from_chk (l : list N) (n : N) : res (list N) :=
+  if n <=? N.of_nat (length l) then Ok (skipn (N.to_nat n) l) else Panic IndexOOB.
+Definition idx_chk (l : list N) (i : N) : res N := idx l (N.to_nat i).
+
+(* arch::all::is_suffix / is_prefix as functions of the two slices (their load traces are
+   the business of Sub/IsEqual.v and C18; here only the value matters) *)
+Definition is_suffix_l (h n : list N) : bool :=
+  (length n <=? length h)%nat && list_eqb (skipn (length h - length n) h) n.
+Definition is_prefix_l (h n : list N) : bool :=
+  (length n <=? length h)%nat && list_eqb (firstn (length n) h) n.
